@@ -10,6 +10,16 @@ using namespace vh;
 
 namespace {
 
+    std::vector<std::string> const c14_focus = {"stop_state", "stop_callback", "stop_source", "stop_token", "request_stop", "remove_callback", "add_callback"};
+    struct FocusInit
+    {
+        FocusInit()
+        {
+            for (auto& s : c14_focus) focus_patterns().push_back(s);
+        }
+    } focus_init;
+
+
     enum
     {
         OP_SRC_COPY = 1,       // a = state: copy a source of that state into a new local slot
@@ -331,6 +341,7 @@ namespace {
         }
         sim_config sc = draw_sim_config(ctx, 50000, FAULT_STALL);
         begin_sim(ctx, sc);
+        focus_select(ctx, c14_focus, 3);
         g_dump_hook = +[]() -> std::string {
             std::string s = pk::dump() + " | callbacks:";
             for (int j = 0; j < MAXCB; j++)
